@@ -341,7 +341,9 @@ func (e *Exec) iteValue(c *Term, a, b Value) (Value, bool) {
 		if y, ok := b.(FloatV); ok && (x.f == y.f || (x.f != x.f && y.f != y.f)) {
 			return a, true
 		}
-		return nil, false
+		return OpaqueF{}, true
+	case OpaqueF:
+		return OpaqueF{}, true
 	case StrV:
 		y, ok := b.(StrV)
 		if !ok || x.Len() != y.Len() {
@@ -1170,6 +1172,15 @@ func (e *Exec) binop(ins ssa.Instruction, op token.Token, a, b Value, ta, tb typ
 			e.unsupported("ordering of symbolic strings")
 		}
 	}
+	_, oa := a.(OpaqueF)
+	_, ob := b.(OpaqueF)
+	if oa || ob {
+		switch op {
+		case token.ADD, token.SUB, token.MUL, token.QUO:
+			return OpaqueF{}, nil
+		}
+		e.unsupported("comparison of an opaque symbolic float (bit-vector mode) at %s", e.posOf(ins))
+	}
 	// reference equality
 	if op == token.EQL || op == token.NEQ {
 		eq := e.valueEq(a, b)
@@ -1350,7 +1361,9 @@ func (e *Exec) convert(ins ssa.Instruction, v Value, from, to types.Type) Value 
 			if e.arith {
 				return e.realFromInt(e.bvToInt(t, isSigned(from)))
 			}
-			e.unsupported("conversion of symbolic integer to float (bit-vector mode) at %s", e.posOf(ins))
+			// bit-vector mode has no symbolic floats: the value is carried as an opaque float that may be
+			// stored and passed around but not inspected
+			return OpaqueF{}
 		}
 		var f float64
 		if isSigned(from) {
@@ -1363,6 +1376,9 @@ func (e *Exec) convert(ins ssa.Instruction, v Value, from, to types.Type) Value 
 		}
 		return FloatV{f}
 	case isInteger(to) && isFloat(from):
+		if _, ok := v.(OpaqueF); ok {
+			e.unsupported("conversion of an opaque symbolic float to integer (bit-vector mode) at %s", e.posOf(ins))
+		}
 		if rv, ok := v.(RealV); ok {
 			return e.realToInt(ins, rv, to)
 		}
@@ -1400,6 +1416,9 @@ func (e *Exec) convert(ins ssa.Instruction, v Value, from, to types.Type) Value 
 	case isFloat(to) && isFloat(from):
 		if rv, ok := v.(RealV); ok {
 			return rv
+		}
+		if _, ok := v.(OpaqueF); ok {
+			return v
 		}
 		f := v.(FloatV).f
 		if tu.(*types.Basic).Kind() == types.Float32 {
